@@ -101,11 +101,21 @@ def main():
             # vacuity: the precondition must be satisfiable
             if ex is not None and ex.covers:
                 s = z3.Solver()
-                s.set("timeout", 10000)
+                s.set("timeout", 2000)
                 for p in ex.covers[0][1]:
                     s.add(p)
                 r = s.check()
-                res["vacuity"].append({"function": c.qualname, "cover": "pre", "result": str(r)})
+                note = ""
+                if r == z3.unknown:
+                    # quantified definitions (ghost sums, lemma instances) make the full query undecidable for the solver: check the quantifier-free part
+                    s = z3.Solver()
+                    s.set("timeout", 8000)
+                    for p in ex.covers[0][1]:
+                        if not engine._has_quant(p):
+                            s.add(p)
+                    r = s.check()
+                    note = " (quantifier-free part of the precondition; quantified ghost definitions assumed consistent)"
+                res["vacuity"].append({"function": c.qualname, "cover": "pre", "result": str(r) + note})
                 if r == z3.unsat:
                     res["errors"].append("vacuous precondition for %s" % c.qualname)
         t_z3 = a.timeout or (20000 if a.tier == "quick" else 60000)
